@@ -213,3 +213,125 @@ impl<T: fmt::Debug> fmt::Debug for RwLockWriteGuard<'_, T> {
         (**self).fmt(f)
     }
 }
+
+#[cfg(test)]
+mod tests {
+    use super::*;
+    use shuttle::scheduler::RandomScheduler;
+    use shuttle::{Config, FailurePersistence, Runner};
+    use std::panic::{catch_unwind, AssertUnwindSafe};
+
+    fn config() -> Config {
+        let mut c = Config::new();
+        c.failure_persistence = FailurePersistence::None;
+        c
+    }
+
+    fn explore<F: Fn() + Send + Sync + 'static>(seed: u64, iterations: usize, f: F) -> Result<usize, String> {
+        catch_unwind(AssertUnwindSafe(|| Runner::new(RandomScheduler::new_from_seed(seed, iterations), config()).run(f)))
+            .map_err(|p| {
+                p.downcast_ref::<String>().cloned().or_else(|| p.downcast_ref::<&str>().map(|s| s.to_string())).unwrap_or_default()
+            })
+    }
+
+    /// Mutual exclusion: a writer never coexists with a reader or another writer.
+    #[test]
+    fn exclusion_holds_under_all_sampled_schedules() {
+        let r = explore(7, 3000, || {
+            let lock = Arc::new(RwLock::new((0u32, 0u32))); // (readers inside, writers inside)
+            let mut hs = Vec::new();
+            for i in 0..3 {
+                let lock = Arc::clone(&lock);
+                hs.push(shuttle::thread::spawn(move || {
+                    for _ in 0..2 {
+                        if i == 0 {
+                            let mut g = lock.write().unwrap();
+                            assert_eq!(*g, (0, 0));
+                            g.1 += 1;
+                            shuttle::thread::sleep(std::time::Duration::ZERO);
+                            g.1 -= 1;
+                        } else {
+                            let g = lock.read().unwrap();
+                            assert_eq!(g.1, 0, "reader admitted while a writer is inside");
+                        }
+                    }
+                }));
+            }
+            for h in hs {
+                h.join().unwrap();
+            }
+            assert_eq!(Arc::try_unwrap(lock).ok().unwrap().into_inner().unwrap(), (0, 0));
+        });
+        assert_eq!(r, Ok(3000));
+    }
+
+    /// A re-entrant read is harmless when no writer can queue in between.
+    #[test]
+    fn reentrant_read_without_writer_is_fine() {
+        let r = explore(11, 2000, || {
+            let lock = Arc::new(RwLock::new(5u32));
+            let mut hs = Vec::new();
+            for _ in 0..3 {
+                let lock = Arc::clone(&lock);
+                hs.push(shuttle::thread::spawn(move || {
+                    let a = lock.read().unwrap();
+                    let b = lock.read().unwrap();
+                    assert_eq!(*a + *b, 10);
+                }));
+            }
+            for h in hs {
+                h.join().unwrap();
+            }
+        });
+        assert_eq!(r, Ok(2000));
+    }
+
+    /// ... and deadlocks (writer preference) when a writer queues between the two reads.
+    #[test]
+    fn reentrant_read_with_queued_writer_deadlocks() {
+        let r = explore(13, 5000, || {
+            let lock = Arc::new(RwLock::new(5u32));
+            let l2 = Arc::clone(&lock);
+            let h = shuttle::thread::spawn(move || {
+                let a = l2.read().unwrap();
+                let b = l2.read().unwrap();
+                assert_eq!(*a, *b);
+            });
+            *lock.write().unwrap() += 1;
+            h.join().unwrap();
+        });
+        let msg = r.expect_err("some schedule must deadlock");
+        assert!(msg.starts_with("deadlock!"), "unexpected failure: {msg}");
+        let diag = trace::snapshot();
+        let culprit = diag.iter().find(|t| !t.holds.is_empty() && t.waiting.is_some()).expect("a task blocked while holding");
+        assert!(!culprit.waiting.as_ref().unwrap().write);
+        assert!(culprit.waiting.as_ref().unwrap().site().contains("src/lib.rs:"));
+    }
+
+    /// Sequential (non-nested) reads never deadlock against writers.
+    #[test]
+    fn sequential_reads_with_writers_never_deadlock() {
+        let r = explore(17, 5000, || {
+            let lock = Arc::new(RwLock::new(0u32));
+            let mut hs = Vec::new();
+            for i in 0..3 {
+                let lock = Arc::clone(&lock);
+                hs.push(shuttle::thread::spawn(move || {
+                    for _ in 0..3 {
+                        if i == 0 {
+                            *lock.write().unwrap() += 1;
+                        } else {
+                            let _ = *lock.read().unwrap();
+                        }
+                    }
+                }));
+            }
+            *lock.write().unwrap() += 1;
+            for h in hs {
+                h.join().unwrap();
+            }
+            assert_eq!(*lock.read().unwrap(), 4);
+        });
+        assert_eq!(r, Ok(5000));
+    }
+}
